@@ -113,6 +113,33 @@ def extra_events(ctx):
     body = next(b for t, b, r in build.read_packets(bytes(em)) if t == 1)
     ev.append({'k': 'idfield', 'label': 'encrypted to the encryption subkey', 'kind': 'pkesk', 'body': octets(body), 'fpr': octets(bytes.fromhex(str(subs[1].fingerprint))),
                'verifies': k.decrypt(pgpy.PGPMessage.from_blob(bytes(em))).message == 'y'})
+    # ---- the same id fields for keys whose key id begins with a zero octet (about one key in 256; found by stepping the creation time of
+    # keys from the independent encoder): the field is eight octets, not a number
+    fk = build.ForeignKey('ed25519')
+    while fk.keyid[0] != 0:
+        fk.created += 1
+    rec = enc.Recipient('cv25519')
+    while rec.keyid[0] != 0:
+        rec.created += 1
+    zblob = build.transferable_key(fk, [b'Zero Id <zero@example.org>'], subkeys=[(rec, 0x0C)], secret=True, created=max(fk.created, rec.created) + 5)
+    with warnings.catch_warnings():
+        warnings.simplefilter('ignore')
+        zk = pgpy.PGPKey.from_blob(zblob)[0]
+        zpub = pgpy.PGPKey.from_blob(bytes(zk.pubkey))[0]
+        e = fpr_event('foreign secret key with key ids 00..', zblob, zk)
+        e['same_as_original'] = bytes.fromhex(str(zk.fingerprint)) == fk.fingerprint and bytes.fromhex(str(list(zk.subkeys.values())[0].fingerprint)) == rec.fingerprint
+        e['created_octets'] = octets(struct.pack('>I', fk.created))
+        ev.append(e)
+        zs = zk.sign('x', created=K.ts(max(fk.created, rec.created) + 9))
+        ev.append({'k': 'idfield', 'label': 'primary with key id 00.. signs', 'kind': 'signature', 'body': octets(build.read_packets(bytes(zs))[0][1]), 'fpr': octets(fk.fingerprint),
+                   'verifies': bool(zpub.verify('x', pgpy.PGPSignature.from_blob(bytes(zs))))})
+        zem = zpub.encrypt(pgpy.PGPMessage.new('y'))
+        zbody = next(b for t, b, r in build.read_packets(bytes(zem)) if t == 1)
+        try:
+            zok = zk.decrypt(pgpy.PGPMessage.from_blob(bytes(zem))).message == 'y'
+        except Exception:
+            zok = False
+        ev.append({'k': 'idfield', 'label': 'encrypted to a subkey with key id 00..', 'kind': 'pkesk', 'body': octets(zbody), 'fpr': octets(rec.fingerprint), 'verifies': zok})
     return ev
 
 
